@@ -79,6 +79,20 @@ class Ctx:
         self.engines.append(e)
         return e
 
+    def fork(self, prop):
+        """A context for another property sharing the parsed repo, the type
+        table and the engines' caches (used when many properties are run on
+        one tree, e.g. the patch corpus)."""
+        c = Ctx.__new__(Ctx)
+        c.__dict__.update(self.__dict__)
+        c.prop = prop
+        c.chk = Check(prop, self.tier, self.seed)
+        c.engines = []
+        c.__dict__.pop("_sub_paths", None)
+        c.__dict__.pop("_sub_memo", None)
+        c.__dict__.pop("_raise_probe", None)
+        return c
+
     def record_analysed(self):
         a = self.chk.analysed
         a["files_parsed"] = len(self.repo.modules)
@@ -97,11 +111,11 @@ class Ctx:
             )[:80]
 
 
-def run_property(prop, tier="quick", seed=0, overlay=None, root=REPO_ROOT, write=True, quiet=False, selftest=False):
+def run_property(prop, tier="quick", seed=0, overlay=None, root=REPO_ROOT, write=True, quiet=False, selftest=False, base=None):
     """Runs one property's rules; returns (exit_code, Check | None, error)."""
     ctx = None
     try:
-        ctx = Ctx(prop, tier, seed, root=root, overlay=overlay)
+        ctx = base.fork(prop) if base is not None else Ctx(prop, tier, seed, root=root, overlay=overlay)
         if len(ctx.repo.modules) < 55:
             raise AnalysisError(
                 f"only {len(ctx.repo.modules)} source files found under "
